@@ -14,7 +14,9 @@ RECURSIVE TextOf(_)
 TextOf(ps) == IF ps = <<>> THEN <<>> ELSE Vocab[Head(ps)] \o TextOf(Tail(ps))
 P == TextOf(pieces)
 
-Versions == <<S("v1.0.0"), S("v0.3.0"), S("v2.0.0"), S("v2.0.0+incompatible"), S("v0.0.0-20190101000000-abcdefabcdef"), S("v1"), S("1.0.0"), S("v3.1.4-pre")>>
+Versions == <<S("v1.0.0"), S("v0.3.0"), S("v2.0.0"), S("v2.0.0+incompatible"), S("v0.0.0-20190101000000-abcdefabcdef"), S("v1"), S("1.0.0"), S("v3.1.4-pre"),
+              \* invalid versions that begin like a v0 pseudo-version (the gopkg.in .v1 exception looks at the text only)
+              S("v0.0.0-"), S("v0.0.0-a..b"), S("v3.0.0+incompatible")>>
 
 ExpPath(p) == ExpPathV(p, Versions)
 CaseOf(p) == [w |-> "modpath", k |-> "path", in |-> [p |-> p, versions |-> Versions], exp |-> ExpPath(p)]
